@@ -22,6 +22,7 @@ RULE = ('generated source trees on tmpfs (identifier / non-identifier / ignored 
         'enumeration orders and equal to the model\'s sorted walk. distinct = digest of tree + '
         'options; non-trivial = >= 2 test modules or a filter/pruning rule applied. Mostly input '
         'generation: the simulation content is the enumeration-order seam and the import history')
+RULE += (' One spec in eight (trees without links): a directory below a search path is removed by another process after its parent was listed and before the walk enters it - everything else must still be found.')
 RULE += (' ' + 'Later additions: mixed-case directory names, stitched packages, duplicate link targets.')
 REAL_VS_STUB = {
     'real': 'options, Find feature, find_test_files/find_suites/test_dirs, import of the '
@@ -195,6 +196,15 @@ def gen1(seed, attempt):
                                     'tests$', '!sub'])]
     elif knit is not None:
         tree['dirs'] = [d for d in tree['dirs'] if d['name'] != 'stitched']
+    if seed % 8 == 6 and ext is None and 'knit' not in spec and not opt.get('s') and \
+            not any(node.get('links') for _, node in fssim.walk_tree(tree)):
+        # a directory below a search path disappears (another process cleans up) after its
+        # parent was listed and before the walk enters it: everything else is still found
+        vrng = random.Random(seed ^ 0x7A15)
+        cands = [rel for rel, node in fssim.walk_tree(tree)
+                 if not any(r == rel or r.startswith(rel + '/') for r in roots)]
+        if cands:
+            spec['vanish'] = vrng.choice(cands)
     return spec
 
 
@@ -322,7 +332,11 @@ def run(spec, ctx):
             del sys.modules[name]
         import importlib
         importlib.invalidate_caches()
-        simos = fssim.SimOS(random.Random(spec['seed'] * 7 + k), shuffle=(k > 0))
+        if spec.get('vanish'):
+            fssim.materialise(spec['tree'], top, order_rng=random.Random(spec['seed'] + k))
+        simos = fssim.SimOS(random.Random(spec['seed'] * 7 + k), shuffle=(k > 0),
+                            vanish=(os.path.join(top, spec['vanish'])
+                                    if spec.get('vanish') else None))
         core.prepare()      # (fresh runner modules for every execution: patch those)
         ZF = sys.modules['zope.testrunner.find']
         old = ZF.os
@@ -351,6 +365,10 @@ def run(spec, ctx):
             if ev[1] == 'file.import':
                 relp = os.path.relpath(ev[2], top)
                 imported[relp] = imported.get(relp, 0) + 1
+        if simos.vanished:
+            # (what lay in the directory that disappeared cannot be found; the rest must be)
+            want = [f for f in want if not f.startswith(spec['vanish'] + '/')]
+            never = [f for f in never if not f.startswith(spec['vanish'] + '/')]
         want_mods = [modname[f] for f in want]
         if sorted(listed + problems) != sorted(want_mods):
             viols.append(C.viol('C14/loaded-set-differs',
@@ -384,6 +402,7 @@ def run(spec, ctx):
     nt = len(want) >= 2 or bool(never) or len(opt) > 1
     out = _ws.std_out(spec, ctx, results, viols,
                       {'test_modules': len(want), 'never_import': len(never),
+                       'directory_vanished_during_walk': int(bool(results) and simos.vanished),
                        'roots': len(opt['roots'])}, nontrivial=nt)
     import hashlib
     import json
